@@ -212,6 +212,22 @@ def run(tier, seed):
     for ji, j in enumerate(jobs):
         if ji % 3 == 1 and not cases[ji].get("bare"):
             _diff.age(j, rng, rng.choice([5, 60]))       # locations are relative to the text being evaluated, whatever was evaluated (and failed) before
+        elif ji % 3 == 2 and not cases[ji].get("bare"):
+            # primed: the text of the failing form has been seen before by this interpreter, at another position, inside a procedure that is never called
+            # (every macro use in it has been expanded once already)
+            try:
+                spans = form_spans(cases[ji]["text"])
+                s0, e0, toks = spans[cases[ji]["nforms"] - 1]
+                lines = cases[ji]["text"].split("\n")
+                # text of the failing form, cut out by its span
+                if s0[0] == e0[0]:
+                    ftxt = lines[s0[0] - 1][s0[1] - 1:e0[1] - 1]
+                else:
+                    ftxt = "\n".join([lines[s0[0] - 1][s0[1] - 1:]] + lines[s0[0]:e0[0] - 1] + [lines[e0[0] - 1][:e0[1] - 1]])
+                j["steps"] = [{"src": ";; primer\n\n   (define (zz-primer) " + ftxt + " 'primed)"}] + j["steps"]
+                j["_aged"] = j.get("_aged", 0) + 1
+            except Exception:
+                pass
     recs = core.run_jobs(jobs, "dev", timeout=900 if tier == "quick" else 3000, tag="c15")
     for cs, rec in zip(cases, recs):
         ctx.evaluations += 1
